@@ -5,7 +5,7 @@ use crate::model::tz::{self, RuleDay, TzFile};
 use crate::tzsyn::{self, Synth};
 use arbitrary::Unstructured;
 use astrolabe::verif::Tz;
-use astrolabe::{DateTime, DateUtilities, Offset};
+use astrolabe::{DateTime, DateUtilities, Offset, OffsetUtilities, TimeUtilities};
 use serde::{Deserialize, Serialize};
 
 #[derive(Debug, Clone, Hash, Serialize, Deserialize)]
@@ -210,15 +210,27 @@ pub fn judge(c: &Case, cx: &mut Cx) -> Verdict {
             let r = catch(|| {
                 astrolabe::verif::set_localtime(Some(Ok(bytes.clone())));
                 astrolabe::verif::set_now(Some(DateTime::from_timestamp(t)));
-                Offset::Local.resolve()
+                let got = Offset::Local.resolve();
+                // the documented entry point: the current time read in the local zone
+                let d = DateTime::now_local();
+                (got, d.get_offset() == Offset::Local, d.timestamp(), (d.year(), d.month(), d.day(), d.hour(), d.minute(), d.second()), d.format("xxxxx"))
             });
             astrolabe::verif::set_localtime(None);
             astrolabe::verif::set_now(None);
             match r {
-                Err(p) => return fail("c18.resolve_panic", format!("{}: Offset::Local.resolve() at {} = {}", name, t, want), p.short()),
-                Ok(got) => {
+                Err(p) => return fail("c18.resolve_panic", format!("{}: Offset::Local.resolve() / DateTime::now_local() at {} = {}", name, t, want), p.short()),
+                Ok((got, is_local, stamp, fields, zone)) => {
                     if got != want {
                         return fail("c18.resolve_wrong_offset", format!("{}: Offset::Local.resolve() at {} = {}", name, t, want), format!("{}", got));
+                    }
+                    let f = crate::model::tl::fields((t as i128 + crate::model::tl::EPOCH_1970_S as i128 + want as i128) * 1_000_000_000);
+                    let want_now = (true, t, (f.year as i32, f.month, f.dom, f.hour, f.minute, f.second), super::c10::fmt_off_colon_full(want));
+                    if (is_local, stamp, fields, zone.clone()) != want_now {
+                        return fail(
+                            "c18.now_local_reading",
+                            format!("{}: DateTime::now_local() at {} (offset {}) reads (Offset::Local, timestamp, y-m-d h:m:s, zone) = {:?}", name, t, want, want_now),
+                            format!("{:?}", (is_local, stamp, fields, zone)),
+                        );
                     }
                 }
             }
